@@ -568,7 +568,22 @@ impl Prop for C08 {
                 }
                 // cancellation: nothing of this macro down within 2 ms of the cancelling event
                 if (cut_by_release && k > 0) || (cut_by_press && k > 0) {
-                    let t_cancel = if cut_by_release { t_release } else { other_press_t.unwrap_or(0) };
+                    // (events are taken from the queue one per tick in arrival order: several events of
+                    // one millisecond are processed in the following ticks, the release among them)
+                    let t_release_processed = {
+                        let mut prev = 0u64;
+                        let mut found = t_release;
+                        for (at, op) in arr.iter() {
+                            let p = (*at + 1).max(prev + 1);
+                            prev = p;
+                            if matches!(op, Op::Release(c) if *c == key) {
+                                found = p.saturating_sub(1).max(t_release);
+                                break;
+                            }
+                        }
+                        found
+                    };
+                    let t_cancel = if cut_by_release { t_release_processed } else { other_press_t.unwrap_or(0) };
                     if let Some(last) = proj.last() {
                         if last.t > t_cancel + 3 && iters == 0 && k < n {
                             o.set_fail("C08:cancelled-macro-keys-released-late", format!("macro #{mi} ({v}) cancelled at {t_cancel}, last event at {}: {}", last.t, outs_short(&outs)), anomaly_tags.clone());
